@@ -669,7 +669,7 @@ class MulLinearOperator(LinearOperator):
         return self.a._mv(x) * self.f
 
     def _rmv(self, x: torch.Tensor) -> torch.Tensor:
-        return self.a._rmv(x) * self.f
+        return self.a.rmv(x) * self.f
 
     def _getparamnames(self, prefix: str = "") -> List[str]:
         pnames = self.a._getparamnames(prefix=prefix + "a.")
